@@ -321,6 +321,31 @@ func (t *CIDRTrie) Visit(f func(cidr CIDR, data any) bool) {
 	t.root.visit(f)
 }
 
+// VisitCoveredBy calls f for each entry in the trie whose CIDR is equal to, or contained within,
+// the given CIDR.  Iteration stops if f returns false.
+func (t *CIDRTrie) VisitCoveredBy(cidr CIDR, f func(cidr CIDR, data any) bool) {
+	n := t.root
+	for n != nil {
+		if n.cidr.Version() != cidr.Version() {
+			logrus.WithFields(logrus.Fields{"n.cidr": n.cidr, "cidr": cidr}).Panic("Mismatched CIDR IP versions")
+		}
+		if n.cidr.Prefix() >= cidr.Prefix() {
+			// This node is at least as specific as the CIDR; either it (and hence its whole
+			// subtree) is inside the CIDR or it's disjoint from it.
+			if cidr.Contains(n.cidr.Addr()) {
+				n.visit(f)
+			}
+			return
+		}
+		if !n.cidr.Contains(cidr.Addr()) {
+			// Disjoint.
+			return
+		}
+		// This node covers the CIDR; anything inside the CIDR must be below the child on the CIDR's side.
+		n = n.children[cidr.Addr().NthBit(uint(n.cidr.Prefix()+1))]
+	}
+}
+
 // ClosestDescendants returns a list of CIDRs representing the closest descendants of the given CIDR in the trie that
 // have data associated with them. It does not return a full list of all descendants - only any descendants that are tied for
 // being the closest to the given CIDR.
